@@ -36,6 +36,20 @@ def check_match(m: Any, doc: Any, d: int, tbl: DocTable) -> str:
         return f"path-does-not-compile-{exc_family(e)}"
     if len(again) != 1:
         return f"path-selects-{len(again)}-nodes"
+    if "\\" in m.path:
+        # the same path text read by an environment before and after its decoding option was switched on
+        try:
+            e2 = jsonpath.JSONPathEnvironment(unicode_escape=False)
+            try:
+                e2.findall(m.path, doc)
+            except Exception:  # noqa: BLE001
+                pass
+            e2.unicode_escape = True
+            got = e2.findall(m.path, doc)
+            if len(got) != 1 or got[0] is not m.obj:
+                return "path-selects-another-node-in-an-environment-that-read-it-before-its-options-changed"
+        except BaseException as e:  # noqa: BLE001
+            return f"path-does-not-compile-{exc_family(e)}"
     if again[0].obj is not m.obj:
         return "path-selects-another-node"
     try:
